@@ -1,7 +1,7 @@
 (** Properties/C08.v — Attribute selection, merging across attributes, and forwarding.
     Statements only; for ANY element-level receiver declaration [b] (attribute names, forward
     filter, attrs member, ordinary fields of any types) and any user callables. *)
-From DarlingModel Require Import Run.Recv Run.Outer Run.OuterProofs.
+From DarlingModel Require Import Run.NameProofs Run.Recv Run.Outer Run.OuterProofs.
 Local Open Scope list_scope.
 
 Section C08.
@@ -74,7 +74,26 @@ Theorem C08_forwarded_meaning :
   forall b a, forwarded b a = (negb (selected b a) && will_fwd b && fwd_selects b a)%bool.
 Proof. reflexivity. Qed.
 
+(** The name an attribute is selected by is its path as written, except that a raw identifier is the
+    name it stands for (`#[r#final(..)]` is selected by a declared `final`, which can only be declared
+    as `r#final`), and a global path keeps its leading colons (`#[::a]` is selected by a declared
+    `::a` and by no name declared without them). *)
+Theorem C08_attribute_names :
+  (forall i j f s, attr_name (mkAttr i (mkPath j false [(("r#" ++ s)%string, ""%string)]) f) = s)
+  /\ (forall a, p_leading (at_path a) = true -> String.prefix "::" (attr_name a) = true)
+  /\ (forall b a, p_leading (at_path a) = true ->
+        Forall (fun n => String.prefix "::" n = false) (ob_names b) -> selected b a = false).
+Proof.
+  split; [reflexivity|]. split.
+  - intros a H. unfold attr_name. now apply NameProofs.path_to_string_global.
+  - intros b a H F. unfold selected. induction F as [|n r Hn _ IH]; [reflexivity|]. cbn [existsb].
+    destruct (str_eqb (attr_name a) n) eqn:E; [|exact IH].
+    unfold str_eqb in E. apply String.eqb_eq in E. rewrite <- E in Hn.
+    unfold attr_name in Hn. rewrite (NameProofs.path_to_string_global _ H) in Hn. discriminate.
+Qed.
+
 Print Assumptions C08_partition_invariant.
+Print Assumptions C08_attribute_names.
 Print Assumptions C08_unrelated_attribute_inert.
 Print Assumptions C08_forward_exact.
 Print Assumptions C08_forwarded_meaning.
